@@ -18,6 +18,7 @@ ROOT = os.path.dirname(os.path.dirname(os.path.abspath(__file__)))
 CRATE = os.path.join(ROOT, 'replay')
 BIN = os.path.join(CRATE, 'target', 'release', 'verif-replay')
 MODES = {
+    'C02': ['optimizer'],
     'C03': ['cek', 'corpus'],
     'C04': ['builtins', 'datacodec'],
     'C05': ['budget', 'corpus'],
